@@ -473,6 +473,33 @@ func c08Routes(c *eng.Ctx, sj, getIdentity *ssa.Function) {
 			if mc, isMC := hv.(*ssa.MakeClosure); isMC {
 				h = eng.Unwrap(mc.Fn.(*ssa.Function))
 			}
+			// (a handler built by a constructor method: the method does nothing
+			// but call the handler factory, whose literal is the handler)
+			if gc, _ := eng.TupleCall(hv); gc != nil && h == nil {
+				if g := eng.Callee(&gc.Call); g != nil && g.Blocks != nil && eng.FuncPkg(g) == p.TypesPkg("server") {
+					var fc *ssa.Call
+					nc := 0
+					eng.Instrs(g, func(x ssa.Instruction) {
+						if ci, isC := x.(ssa.CallInstruction); isC {
+							nc++
+							fc, _ = ci.(*ssa.Call)
+						}
+					})
+					if nc == 1 && fc != nil {
+						if lit, _, isHF := handlerFactory(eng.Callee(&fc.Call)); isHF {
+							okRet := true
+							for _, r := range eng.Returns(g) {
+								if rc, _ := eng.TupleCall(eng.RetVals(r)[0]); rc != fc {
+									okRet = false
+								}
+							}
+							if okRet {
+								h = lit
+							}
+						}
+					}
+				}
+			}
 			if h == nil {
 				c.Bad("R-C08-2", newFn, in.Pos(), "handler for "+pat, "a method of Server whose body is one serveJSON call", "not a bound method")
 				continue
